@@ -5,13 +5,14 @@
    httpbase.use_http_artifact (248-255), httpbase.use_http_uri (257-282, the SAMLRequest branch),
    s_utils.deflate_and_base64_encode /
    decode_base64_and_inflate (144-163), Entity.unravel (423-462),
-   entity.create_artifact (105-127), Entity.artifact2destination (1574-1601).
+   entity.create_artifact (105-127), Entity.artifact2destination (1585-1612, as repaired by fbf0c2eb: the index
+   attribute is compared by NUMBER; the text comparison it replaces is kept as artifact2destination_v0).
    zlib, SHA-1 and the XML parser of the SOAP receiver are Section variables.
    Definitions named ..._v0 restate the code as it was BEFORE a repair commit (fc5e66e9: query
    glue; d9426b2c: add_query and a query ending in '?' (these are the ..._v1 definitions); 9f16767d:
    declaration text inside the SOAP body); they are kept for the ..._v0_refuted
    theorems and for Corr.cls, which recognises a regression to the old behaviour. *)
-From Coq Require Import String Ascii List Bool Arith DecimalString.
+From Coq Require Import String Ascii List Bool Arith DecimalString ZArith.
 From Verif Require Import Base.Str Base.Percent Base.Base64 Base.Html Base.Query.
 Import ListNotations.
 Open Scope string_scope.
@@ -384,7 +385,69 @@ Section Codec.
 
   Inductive ares := AOk (dest : option string) | AErr.
 
-  Definition scan_desc (idx : string) (acc : ares) (d : descriptor) : ares :=
+  (* int(b, 16) for a slice b of at most two bytes, as a number; None = ValueError
+     (int16_str above is str() of it: C14/Source2.v, int16_str_z) *)
+  Definition int16_z (b : string) : option Z :=
+    match rstrip_chars is_bspace (lstrip_chars is_bspace b) with
+    | String d EmptyString => option_map Z.of_nat (hexval d)
+    | String s (String d EmptyString) =>
+        match hexval d with
+        | None => None
+        | Some y =>
+            if Ascii.eqb s "+"%char then Some (Z.of_nat y)
+            else if Ascii.eqb s "-"%char then Some (- Z.of_nat y)%Z
+            else match hexval s with Some x => Some (Z.of_nat (16 * x + y)) | None => None end
+        end
+    | _ => None
+    end.
+
+  (* _index.isascii() and _index.isdigit() and int(_index): the value of a non-empty string of ASCII decimal
+     digits (leading zeros allowed); None: isascii() or isdigit() is False *)
+  Definition is_dec_digit (c : ascii) : bool := let n := code c in ((48 <=? n) && (n <=? 57))%nat.
+  Fixpoint dec_go (acc : nat) (s : string) : option nat :=
+    match s with
+    | EmptyString => Some acc
+    | String c r => if is_dec_digit c then dec_go (10 * acc + (code c - 48)) r else None
+    end.
+  Definition dec_value (s : string) : option nat := if is_empty s then None else dec_go 0 s.
+
+  (* _index.isascii() and _index.isdigit() and int(_index) == endpoint_index *)
+  Definition idx_matches (z : Z) (s : string) : bool :=
+    match dec_value s with Some v => Z.eqb (Z.of_nat v) z | None => false end.
+
+  (* for srv in desc["artifact_resolution_service"]: if <matches>: destination = srv["location"]; break *)
+  Fixpoint find_svc (z : Z) (svcs : list service) : option string :=
+    match svcs with
+    | [] => None
+    | sv :: r => if idx_matches z (fst sv) then Some (snd sv) else find_svc z r
+    end.
+
+  Definition scan_desc (z : Z) (acc : ares) (d : descriptor) : ares :=
+    match acc, d with
+    | AErr, _ => AErr
+    | _, None => AErr
+    | AOk dest, Some svcs =>
+        AOk (match find_svc z svcs with Some l => Some l | None => dest end)
+    end.
+
+  Definition artifact2destination (sm : sourcemap) (art : string) : ares :=
+    match decode_str art with
+    | None => AErr
+    | Some a =>
+        if negb (String.eqb (take 2 a) ARTIFACT_TYPECODE) then AErr
+        else match int16_z (slice 2 4 a) with
+             | None => AErr
+             | Some z =>
+                 match assoc (slice 4 24 a) sm with
+                 | None => AErr                                       (* KeyError: unknown source id *)
+                 | Some None => AErr
+                 | Some (Some descs) => fold_left (scan_desc z) descs (AOk None)
+                 end
+             end
+    end.
+
+  (* before fbf0c2eb: endpoint_index = str(int(_art[2:4], 16)); if srv["index"] == endpoint_index *)
+  Definition scan_desc_v0 (idx : string) (acc : ares) (d : descriptor) : ares :=
     match acc, d with
     | AErr, _ => AErr
     | _, None => AErr
@@ -392,7 +455,7 @@ Section Codec.
         AOk (match assoc idx svcs with Some l => Some l | None => dest end)
     end.
 
-  Definition artifact2destination (sm : sourcemap) (art : string) : ares :=
+  Definition artifact2destination_v0 (sm : sourcemap) (art : string) : ares :=
     match decode_str art with
     | None => AErr
     | Some a =>
@@ -401,11 +464,96 @@ Section Codec.
              | None => AErr
              | Some idx =>
                  match assoc (slice 4 24 a) sm with
-                 | None => AErr                                       (* KeyError: unknown source id *)
+                 | None => AErr
                  | Some None => AErr
-                 | Some (Some descs) => fold_left (scan_desc idx) descs (AOk None)
+                 | Some (Some descs) => fold_left (scan_desc_v0 idx) descs (AOk None)
                  end
              end
+    end.
+
+  (* ---------------------------------------------------------------- the resolver's metadata: from the documents
+     to self.sourceid (mdstore.InMemoryMetaData.parse / construct_source_id, MetadataStore.construct_source_id,
+     Entity.__init__ / Entity.reload_metadata) *)
+
+  (* What the metadata documents say (input): per entity the <md:SPSSODescriptor> and <md:IDPSSODescriptor>
+     elements in document order, each with its <md:ArtifactResolutionService> elements (index attribute as
+     spelled in the document, Location). *)
+  Inductive role := RSp | RIdp.                                       (* descriptor argument: "spsso" / "idpsso" *)
+  Record fent := { fe_eid : string; fe_sp : list (list service); fe_idp : list (list service) }.
+  Definition source := list fent.                                     (* one metadata document, entities in document order *)
+  Definition federation := list source.                               (* the configured sources, in configuration order *)
+
+  Definition role_descs (r : role) (e : fent) : list (list service) :=
+    match r with RSp => fe_sp e | RIdp => fe_idp e end.
+
+  (* mdie._eval: every str attribute is strip()ped, empty lists / absent elements leave no key *)
+  Definition strip_ws (s : string) : string := rstrip_chars is_bspace (lstrip_chars is_bspace s).
+  Definition parse_desc (svcs : list service) : descriptor :=
+    match svcs with
+    | [] => None
+    | _ => Some (map (fun sv => (strip_ws (fst sv), snd sv)) svcs)
+    end.
+  Definition parse_role (descs : list (list service)) : entity :=
+    match descs with [] => None | _ => Some (map parse_desc descs) end.
+
+  Definition mview := (entity * entity)%type.                          (* ent["spsso_descriptor"], ent["idpsso_descriptor"] *)
+  Definition parse_ent (e : fent) : mview := (parse_role (fe_sp e), parse_role (fe_idp e)).
+  Definition view_role (r : role) (v : mview) : entity := match r with RSp => fst v | RIdp => snd v end.
+
+  (* d[k] = v on an insertion-ordered dict *)
+  Fixpoint upd {A} (k : string) (v : A) (l : list (string * A)) : list (string * A) :=
+    match l with
+    | [] => [(k, v)]
+    | (k', v') :: r => if String.eqb k k' then (k, v) :: r else (k', v') :: upd k v r
+    end.
+
+  (* InMemoryMetaData.entity after parse(): do_entity_descriptor ignores an entityID it has seen before
+     ("Duplicated Entity descriptor"), otherwise self.entity[entity_descr.entity_id] = _ent, in document order *)
+  Definition ins_new {A} (k : string) (v : A) (l : list (string * A)) : list (string * A) :=
+    match assoc k l with Some _ => l | None => l ++ [(k, v)] end.
+  Definition source_entities (src : source) : list (string * mview) :=
+    fold_left (fun acc e => ins_new (fe_eid e) (parse_ent e) acc) src [].
+
+  Definition has_ars (en : entity) : bool :=
+    match en with
+    | Some ds => existsb (fun d => match d with Some _ => true | None => false end) ds
+    | None => false                                                   (* KeyError: pass *)
+    end.
+
+  (* InMemoryMetaData.construct_source_id: for eid, ent in self.items(): ... res[sha1(eid).digest()] = ent *)
+  Definition fsourcemap := list (string * mview).
+  Definition construct_source_id (src : source) : fsourcemap :=
+    fold_left (fun res kv => if has_ars (fst (snd kv)) || has_ars (snd (snd kv))
+                             then upd (sha1 (fst kv)) (snd kv) res else res)
+              (source_entities src) [].
+
+  (* MetadataStore.construct_source_id: for _md in self.metadata.values(): res.update(_md.construct_source_id()) *)
+  Definition dict_update {A} (res new : list (string * A)) : list (string * A) :=
+    fold_left (fun r kv => upd (fst kv) (snd kv) r) new res.
+  Definition store_source_id (fed : federation) : fsourcemap :=
+    fold_left (fun res src => dict_update res (construct_source_id src)) fed [].
+
+  (* entity[f"{descriptor}_descriptor"] of artifact2destination *)
+  Definition project (r : role) (m : fsourcemap) : sourcemap :=
+    map (fun kv => (fst kv, view_role r (snd kv))) m.
+
+  (* Entity(config with these sources).artifact2destination(art, descriptor), also after reload_metadata *)
+  Definition resolve_in (fed : federation) (r : role) (art : string) : ares :=
+    artifact2destination (project r (store_source_id fed)) art.
+  Definition resolve_in_v0 (fed : federation) (r : role) (art : string) : ares :=
+    artifact2destination_v0 (project r (store_source_id fed)) art.
+
+  (* sequences on a long-lived resolver: (re)loads of metadata and resolutions *)
+  Inductive fop :=
+  | OLoad (fed : federation)                                   (* Entity(config) or Entity.reload_metadata(conf) *)
+  | OResolve (eid handle : string) (idx : nat) (r : role).     (* create_artifact ... artifact2destination *)
+
+  (* the results of the OResolve operations, in order: self.sourceid is rebuilt by every load *)
+  Fixpoint run_fed (cur : federation) (ops : list fop) : list ares :=
+    match ops with
+    | [] => []
+    | OLoad fed :: r => run_fed fed r
+    | OResolve eid h idx ro :: r => resolve_in cur ro (create_artifact eid h idx) :: run_fed cur r
     end.
 
 End Codec.
